@@ -6,6 +6,12 @@ FLIP = {"Lt": "Gt", "Gt": "Lt", "Le": "Ge", "Ge": "Le"}
 # wrapper functions that do not change the value (crate-local identity helpers are
 # verified separately by R-07.1: `likely`/`unlikely` return their argument)
 IDENTITY_CALLS = {"intrinsics::likely", "intrinsics::unlikely"}
+# lossless integer conversions written as calls: u32::from(x), usize::from(x), x.into() -- the value is unchanged, exactly
+# like the widening `as` casts that are stripped below (only unsigned/bool sources into unsigned targets; From is only
+# implemented for lossless pairs, so the implemented pairs are all widening or same-width)
+import re as _re
+_INT = r"(?:u8|u16|u32|u64|u128|usize|bool)"
+WIDENING_FROM = _re.compile(r"^<(%s) as core::convert::From<(%s)>>::from$|^<(%s) as core::convert::Into<(%s)>>::into$|^core::convert::num::<impl core::convert::From<(%s)> for (%s)>::from$" % (_INT, _INT, _INT, _INT, _INT, _INT))
 
 
 def short(path):
@@ -72,6 +78,12 @@ def n(e, keep_casts=False):
     if k == "call":
         path, rawargs = (e[1], e[2]) if isinstance(e[1], str) else (e[2], e[3])
         args = tuple(n(x, keep_casts) for x in rawargs)
+        if len(args) == 1 and WIDENING_FROM.match(path):
+            if not keep_casts:
+                return args[0]
+            m_ = WIDENING_FROM.match(path)
+            tgt = m_.group(1) or m_.group(4) or m_.group(6)
+            return ("cast", "IntToInt", tgt, args[0])
         if path in IDENTITY_CALLS and len(args) == 1:
             return args[0]
         return ("call", path, args)
